@@ -92,7 +92,7 @@ def handle (args : List String) : String :=
              permOk := pBool (g "perm_ok"), mask := pBool (g "mask"), qs := pScaling (g "q_sc"),
              ks := pScaling (g "k_sc"), qks := pScaling (g "qk_sc") }
     | "mha" =>
-      mha { past := pBool (g "past"), keyT := pBool (g "key_t"), qPermOk := pBool (g "q_perm_ok"), rotary := pBool (g "rotary"), rotIl := pInt (g "rot_il"),
+      mha { past := pBool (g "past"), cross := pBool (g "cross"), keyT := pBool (g "key_t"), qPermOk := pBool (g "q_perm_ok"), rotary := pBool (g "rotary"), rotIl := pInt (g "rot_il"),
             scale := pOptFloat (g "scale"), query := pShapeD (g "query"), key := pShapeD (g "key"),
             value := pShapeD (g "value"), q4 := pShapeD (g "q4"), pastKey := pShapeD (g "past_key"),
             pastValue := pShapeD (g "past_value"), mask := pShape (g "mask") }
